@@ -216,7 +216,10 @@ Definition do_jump (sp : ro_spec) (u : sub) : option (option sub) :=   (* None: 
       match get_step sp (su_next u) with
       | None => None
       | Some nx => Some (Some (upd_sub u (su_next u) (next_index (nsteps sp) (su_next u))
-                                      (if ios_eqb (sp_replicas nx) (sp_replicas cur) then StTraffic else StInit) (su_fin u) false))
+                                      (* the upgrade is skipped only between steps with the same replicas AND when the step jumped from is
+                                         past its own upgrade (since the fix of F14) *)
+                                      (if ios_eqb (sp_replicas nx) (sp_replicas cur) && negb (sstate_eqb (su_state u) StInit || sstate_eqb (su_state u) StUpgrade)
+                                       then StTraffic else StInit) (su_fin u) false))
       end
     else Some None
   end.
